@@ -56,6 +56,7 @@ struct FabricInner {
     fate_pair: Option<(usize, usize)>,
     reorder_delay_us: u64,
     keep_log: bool,
+    trace: bool,
     seen_scids: HashSet<Vec<u8>>,
     drivers: HashMap<usize, Vec<tokio::task::AbortHandle>>,
 }
@@ -165,6 +166,9 @@ impl quinn::AsyncUdpSocket for SockState {
             ch.observe(&rec);
         }
         let delivered = dst.is_some() && !link_down && fate != Fate::Drop;
+        if g.trace {
+            eprintln!("dg t={}us {}->{} len={} first={:02x} {:?}", t_us, self.node, dst_node as i64, t.contents.len(), t.contents[0], fate);
+        }
         if g.keep_log {
             g.log.push(DgLog {
                 t_us,
@@ -351,6 +355,7 @@ impl Fabric {
                 fate_pair: None,
                 reorder_delay_us: 3 * default_latency_us + 1000,
                 keep_log: true,
+                trace: std::env::var("VERIF_TRACE_DG").is_ok(),
                 seen_scids: HashSet::new(),
                 drivers: HashMap::new(),
             }),
